@@ -144,10 +144,20 @@ func genOp(c *gen.Ctx, g *genState, i int) Op {
 	r := c.R
 	op := Op{Now: NowOf(i), Meta: [][2]string{}}
 	// idempotency-key reuse: same input (hit) or different input (validation error)
-	if len(g.iks) > 0 && r.Intn(9) == 0 {
+	reuse := 9
+	if Prop == "C13" {
+		reuse = 3 // the property is about key reuse: most histories re-send several requests
+	}
+	if len(g.iks) > 0 && r.Intn(reuse) == 0 {
 		prev := g.iks[r.Intn(len(g.iks))]
-		if r.Intn(2) == 0 {
-			cp := prev
+		if c := r.Intn(5); c < 4 {
+			// same key: the same request (recorded outcome), or the same request with
+			// EXACTLY ONE input field changed (must be refused, whatever the field)
+			cp := cloneOp(prev)
+			cp.Mut = ""
+			if c >= 2 {
+				cp, _ = MutateOne(r, prev)
+			}
 			cp.Now = op.Now
 			cp.Dry = r.Intn(6) == 0
 			if r.Intn(4) == 0 {
